@@ -87,6 +87,112 @@ def facts_at(body, sym, facts, bb, unwind=False, _depth=0):
     return out
 
 
+_BRANCH_WANTS = {"Continue": ("Ok", "Some"), "Break": ("Err", "None")}
+
+
+def _def_variant(body, d):
+    """variant produced by one definition of a local: 'Ok'/'Err'/... or None when unknown"""
+    if d[0] == "assign":
+        rv = d[3]
+        if rv.get("agg") == "adt" and isinstance(rv.get("variant"), str):
+            return rv["variant"]
+        return None
+    t = d[2]
+    if t["callee"]["name"] == "from_residual":
+        ty = body.local_ty(t["dest"]["l"]) if not t["dest"]["p"] else ""
+        return "Err" if ty.startswith("std::result::Result<") else "None" if ty.startswith("std::option::Option<") else None
+    return None
+
+
+def _origin_chains(body, l, wants, depth=0, seen=None):
+    """Chains of definition blocks through which local `l` can have received a value of one of the variants `wants`
+    (following whole-local moves and `Variant(payload)` wrap/unwrap pairs).  Every block of a chain was executed on
+    the path that produced the value."""
+    seen = set() if seen is None else seen
+    if depth > 10 or (l, wants) in seen:
+        return [()]
+    seen = seen | {(l, wants)}
+    out = []
+    for d in body.defs_of(l):
+        v = _def_variant(body, d)
+        if v is not None:
+            if wants is None or v in wants:
+                out.append((d[1],))
+            continue
+        if d[0] == "assign" and "use" in d[3]:
+            p = op_place(d[3]["use"])
+            if p is not None and not p["p"]:
+                out += [(d[1],) + c for c in _origin_chains(body, p["l"], wants, depth + 1, seen)]
+                continue
+            if p is not None and len(p["p"]) == 2 and isinstance(p["p"][0], dict) and "variant" in p["p"][0] \
+                    and isinstance(p["p"][1], dict) and p["p"][1].get("i") == 0:
+                out += [(d[1],) + c for c in _payload_origin_chains(body, p["l"], p["p"][0]["variant"], wants, depth + 1, seen)]
+                continue
+        out.append((d[1],))
+    return out
+
+
+def _payload_origin_chains(body, x, variant, wants, depth, seen):
+    """definitions feeding the payload of `x` when x is `variant(payload)`"""
+    if depth > 10:
+        return [()]
+    out = []
+    for d in body.defs_of(x):
+        if d[0] == "assign":
+            rv = d[3]
+            if rv.get("agg") == "adt" and rv.get("variant") == variant and rv.get("ops"):
+                q = op_place(rv["ops"][0])
+                if q is not None and not q["p"]:
+                    out += [(d[1],) + c for c in _origin_chains(body, q["l"], wants, depth + 1, seen)]
+                else:
+                    out.append((d[1],))
+                continue
+            if rv.get("agg") == "adt" and isinstance(rv.get("variant"), str):
+                continue    # another variant: not this payload
+            if "use" in rv:
+                p = op_place(rv["use"])
+                if p is not None and not p["p"]:
+                    out += [(d[1],) + c for c in _payload_origin_chains(body, p["l"], variant, wants, depth + 1, seen)]
+                    continue
+        out.append((d[1],))
+    return out
+
+
+def fact_alternatives(body, sym, facts, bb, max_alts=8):
+    """facts_at(bb), refined per definition: when a fact says that a multiply-defined local (e.g. the result of an
+    inlined helper, or a value merged from several match arms) has a certain variant, the value must come from one
+    of the definition chains that can produce that variant, and the facts of those definitions' blocks held when
+    they ran.  Returns a list of alternative fact lists (a disjunction); a rule that needs P must find P in every
+    alternative."""
+    base = facts_at(body, sym, facts, bb)
+    alts = [base]
+    for f in base:
+        e, val = f["expr"], f["val"]
+        wants = None
+        if e[0] == "call" and e[1].endswith("::branch") and isinstance(val, str) and val in _BRANCH_WANTS and e[2]:
+            e, wants = e[2][0], _BRANCH_WANTS[val]
+        elif isinstance(val, str):
+            wants = (val,)
+        if wants is None or e[0] != "local":
+            continue
+        chains = sorted(set(tuple(sorted(set(c))) for c in _origin_chains(body, e[1], wants)))
+        chains = [c for c in chains if c and c != (bb,)]
+        if not chains or len(chains) > 64:
+            continue
+        # chains that differ only in fact-free copy blocks are one alternative
+        extras = {}
+        for c in chains:
+            extra = []
+            for x in c:
+                extra += facts_at(body, sym, facts, x)
+            key = frozenset((fx["text"]) for fx in extra)
+            extras.setdefault(key, extra)
+        if len(extras) * len(alts) > max_alts:
+            continue
+        alts = [alt + extra for alt in alts for extra in extras.values()]
+    return alts
+
+
 def _variants_for_discr(body, facts, term, s):
     p = op_place(term["on"])
     if p is None:
